@@ -1,13 +1,18 @@
 """C07 - every peak is assigned to its best-fitting grain, whatever the order or threads."""
-from verif.units import CUnit
+from verif.units import CUnit, BoundedUnit
 import contracts  # noqa
 
-LEVEL = "proof"
+LEVEL = "other"
 WALL_MS = 60000
 TRUSTED = []
 ASSUMPTIONS = ["|ubi.g| <= 2^51 for every peak, no NaN/Inf"]
-EXPLANATION = "score_and_assign: per-peak postcondition, frame, DRF of the omp loop; contract-level lemma over grain sequences."
+EXPLANATION = ("Proved for all inputs: score_and_assign - per-peak postcondition, frame, data-race freedom of the omp loop; contract-level lemma over grain "
+               "sequences. Bounded (not counted as proved): the python glue indexer.fight_over_peaks / myhistogram on simulated grains with a twin pair and "
+               "junk peaks: labels, stored errors and per-grain counts against a numpy reference over repeated calls on one indexer object, grain orders "
+               "and thread counts (refinegrains.assignlabels is exercised by the C09 stand-in).")
 
 
 def units(ctx):
-    return [CUnit("closest.c:score_and_assign")]
+    from contracts import py_assign
+    return [CUnit("closest.c:score_and_assign"),
+            BoundedUnit("fight_over_peaks-vs-reference", py_assign.bounded, "3 (thorough 5) grain sets x 5 call histories x 3 thread counts")]
